@@ -7,12 +7,17 @@ sid = sys.argv[1]
 sd = os.path.join(VERIF, "seeded", sid)
 manifest = json.load(open(os.path.join(VERIF, "MANIFEST.json")))
 props = sys.argv[2:] or [c["property_id"] for c in manifest["checks"]]
-assert subprocess.run(["git", "-C", REPO, "status", "--porcelain", "--untracked-files=no"], stdout=subprocess.PIPE).stdout.strip() == b"", "repo not clean"
-r = subprocess.run(["git", "-C", REPO, "apply", "--3way", os.path.join(sd, "patch.diff")], stderr=subprocess.PIPE, universal_newlines=True)
+isgit = subprocess.run(["git", "-C", REPO, "rev-parse", "--show-toplevel"], stdout=subprocess.PIPE, stderr=subprocess.DEVNULL).stdout.strip().decode() == os.path.realpath(REPO)
+patch = os.path.join(sd, "patch.diff")
+if isgit:
+    assert subprocess.run(["git", "-C", REPO, "status", "--porcelain", "--untracked-files=no"], stdout=subprocess.PIPE).stdout.strip() == b"", "repo not clean"
+    r = subprocess.run(["git", "-C", REPO, "apply", "--3way", patch], stderr=subprocess.PIPE, universal_newlines=True)
+    if r.returncode:
+        r = subprocess.run(["git", "-C", REPO, "apply", patch], stderr=subprocess.PIPE, universal_newlines=True)
+else:
+    r = subprocess.run(["patch", "-p1", "-s", "-d", REPO, "-i", patch], stderr=subprocess.PIPE, stdout=subprocess.PIPE, universal_newlines=True)
 if r.returncode:
-    r = subprocess.run(["git", "-C", REPO, "apply", os.path.join(sd, "patch.diff")], stderr=subprocess.PIPE, universal_newlines=True)
-if r.returncode:
-    print("patch does not apply:", r.stderr[:500]); sys.exit(2)
+    print("patch does not apply:", (r.stderr or "")[:500]); sys.exit(2)
 res = {}
 try:
     for p in props:
@@ -24,6 +29,9 @@ try:
         if q.returncode not in (0, 1):
             print(q.stdout[-1500:])
 finally:
-    subprocess.run(["git", "-C", REPO, "reset", "-q", "--hard", "HEAD"])
+    if isgit:
+        subprocess.run(["git", "-C", REPO, "reset", "-q", "--hard", "HEAD"])
+    else:
+        subprocess.run(["patch", "-p1", "-s", "-R", "-d", REPO, "-i", patch])
 json.dump(res, open(os.path.join(sd, "result.json"), "w"), indent=1)
 print("detected by:", [p for p, v in res.items() if v["exit"] == 1])
